@@ -77,15 +77,16 @@ enum Sym {
     /// like data does
     Instr,
 }
+pub const NSYMS: usize = 14;
 const SYMS: [Sym; 14] = [Sym::BankA, Sym::BankB, Sym::DataUnit, Sym::DataBit, Sym::DataTwoUnits, Sym::Res1, Sym::Res0, Sym::Align2, Sym::AddrFwd, Sym::AddrStart, Sym::AddrEnd, Sym::Label, Sym::NestedLabel, Sym::Instr];
 
-struct Config {
-    banks: Vec<BankSrc>,
+pub struct Config {
+    pub banks: Vec<BankSrc>,
     /// definition order (indices into banks)
-    order: Vec<usize>,
+    pub order: Vec<usize>,
 }
 
-fn make_configs(thorough: bool) -> Vec<Config> {
+pub fn make_configs(thorough: bool) -> Vec<Config> {
     let shapes_a = [Shape { bits: 8, size: Some(2) }, Shape { bits: 8, size: None }, Shape { bits: 1, size: Some(4) }, Shape { bits: 3, size: Some(2) }, Shape { bits: 16, size: Some(1) }];
     let shapes_b = [Shape { bits: 8, size: Some(2) }, Shape { bits: 3, size: Some(1) }, Shape { bits: 1, size: Some(1) }, Shape { bits: 8, size: None }];
     let rels = [Rel::Adjacent, Rel::GapBit, Rel::GapUnit, Rel::OverlapBit, Rel::Before, Rel::NoOutp];
@@ -179,7 +180,7 @@ fn make_configs(thorough: bool) -> Vec<Config> {
     out
 }
 
-fn build_prog(cfg: &Config, seq: &[usize]) -> Prog {
+pub fn build_prog(cfg: &Config, seq: &[usize]) -> Prog {
     let mut items = vec![];
     for i in &cfg.order {
         items.push(Item::Bankdef(cfg.banks[*i].clone()));
